@@ -96,10 +96,26 @@ func (c c17Cell) class() string {
 // buildC17 materialises one cell as a scenario.
 func buildC17(t *Tree, cell c17Cell) *Scenario {
 	sc := &Scenario{Prop: "C17", Cwd: t.Cwd, Family: "cell"}
+	failLine, failFile, failText := 0, "", ""
 	for _, f := range t.Files {
 		g := f
 		if f.Path == t.path(cell.Page) && cell.FP >= 0 {
-			g.Data = Instantiate(f.Data, cell.FP, failingStmts[cell.Kind%len(failingStmts)])
+			stmt := failingStmts[cell.Kind%len(failingStmts)]
+			// what precedes the failing statement on its way to "the line": nothing, a comment that
+			// spans several lines, or CRLF line ends (neither produces anything a sentinel could match)
+			pre := ""
+			switch (cell.FP + cell.Kind) % 3 {
+			case 1:
+				pre = "{{-- c17: a note\n     that spans\n     three lines --}}"
+			case 2:
+				pre = "\r\n\r\n"
+			}
+			g.Data = Instantiate(f.Data, cell.FP, pre+stmt)
+			// the generator's own answer to "the line": every failing statement is written on one
+			// line, so it is 1 + the newlines before its end in the file it was put into
+			if i := strings.Index(g.Data, stmt); i >= 0 && strings.Count(g.Data, stmt) == 1 {
+				failLine, failFile, failText = 1+strings.Count(g.Data[:i+len(stmt)], "\n"), f.Path, pre+stmt
+			}
 		} else {
 			g.Data = Instantiate(f.Data, -1, "")
 		}
@@ -171,6 +187,9 @@ func buildC17(t *Tree, cell c17Cell) *Scenario {
 		{Kind: "response", Name: name, Data: data, W: &WriterFault{FailAt: 1, Short: true}},
 	}
 	sc.Extra = map[string]any{"cell": cell.class(), "sentinel": sentinel, "tpldir": t.Cwd + "/" + strings.Trim(t.Cfg.Dir, "/")}
+	if failLine > 0 {
+		sc.Extra["failline"], sc.Extra["failfile"], sc.Extra["failtext"] = float64(failLine), failFile, failText
+	}
 	return sc
 }
 
@@ -268,6 +287,7 @@ func checkC17Cfg(sc *Scenario, acc *Acc, cfgOverride *Cfg) (*c17Fail, bool, bool
 		return nil, false, false
 	}
 	failedLate := false
+	var lineSuspect *c17Fail
 	if resp.Kind == "panic" || resp.Kind == "abort" {
 		return &c17Fail{"Response panics or hangs", "response-" + resp.Kind, "", resp.Short()}, false, false
 	}
@@ -370,6 +390,15 @@ func checkC17Cfg(sc *Scenario, acc *Acc, cfgOverride *Cfg) (*c17Fail, bool, bool
 				}
 			}
 		} else {
+			// "the line": where the generator put the one failing statement of the page (independent of the
+			// positions the tree under test computes), whenever the error is reported for that file
+			if fl, _ := sc.Extra["failline"].(float64); fl > 0 && str.Fail && str.Path != "" {
+				ff, _ := sc.Extra["failfile"].(string)
+				if filepath.Base(ff) == filepath.Base(str.Path) && float64(str.Line) != fl {
+					// decided at the end, by a control run: the page may fail on its own, elsewhere
+					lineSuspect = &c17Fail{"debug mode is on but the line shown is not the line of the failing statement", "debug-line-wrong", fmt.Sprint(int(fl)), fmt.Sprintf("%d (%s)", str.Line, short(str.Msg))}
+				}
+			}
 			for _, pr := range [][2]string{{"message", str.Msg}, {"path", str.Path}, {"line", fmt.Sprint(str.Line)}} {
 				what, needle := pr[0], pr[1]
 				if needle == "" {
@@ -404,6 +433,25 @@ func checkC17Cfg(sc *Scenario, acc *Acc, cfgOverride *Cfg) (*c17Fail, bool, bool
 		// the first failure) but never anything else: no second page, no other content
 		if !strings.HasPrefix(resp.Body, o.Body) {
 			return &c17Fail{"a failing writer is offered bytes that are not a prefix of what a healthy one gets", "writer-fault-other-bytes", "a prefix of " + short(resp.Body), short(o.Body)}, failedLate, false
+		}
+	}
+	if lineSuspect != nil && len(sc.Prior) == 0 {
+		// control: the same cell without the failing statement, from a fresh state. Only when that
+		// renders is the substituted statement the one identifiable construct the error is about.
+		ctl := *sc
+		ctl.Files = nil
+		ft, _ := sc.Extra["failtext"].(string)
+		ff, _ := sc.Extra["failfile"].(string)
+		for _, f := range sc.Files {
+			if f.Path == ff && ft != "" {
+				f.Data = strings.Replace(f.Data, ft, "", 1)
+			}
+			ctl.Files = append(ctl.Files, f)
+		}
+		if cw, cok := setupWorld(&ctl); cok {
+			if o := cw.RunOp(sc.Ops[0], Budget); o.Kind == "ok" {
+				return lineSuspect, failedLate, false
+			}
 		}
 	}
 	return nil, failedLate, false
